@@ -150,8 +150,12 @@ def base64_cases(ctx, cases):
         # capacity = text + terminating NUL (the NUL at dst[reported] is C12's subject, not C14's)
         p.case("b64enc %s %d" % (hexs(src), len(enc) + 1), dict(exact_len=True, rc=0, n=len(enc), out=enc), "base64:encode", nontrivial=nt)
         p.case("b64dec %s %d" % (hexs(enc), len(enc) + 4), dict(exact_len=True, rc=0, n=len(src), out=src), "base64:decode", nontrivial=nt)
+        # the two-step use (size query with no room, then a block of exactly the reported size): must decode / encode completely
+        p.case("b64dec2 %s 0" % hexs(enc), dict(rc=0, n=len(src), out=src), "base64:decode:size-query-then-exact-block", nontrivial=nt)
+        p.case("b64enc2 %s 0" % hexs(src), dict(rc=0, n=len(enc), out=enc), "base64:encode:size-query-then-exact-block", nontrivial=nt)
         if encnp != enc:
             p.case("b64dec %s %d" % (hexs(encnp), len(enc) + 4), dict(exact_len=True, rc=0, n=len(src), out=src), "base64:decode-unpadded")
+            p.case("b64dec2 %s 0" % hexs(encnp), dict(rc=0, n=len(src), out=src), "base64:decode-unpadded:size-query-then-exact-block")
         for j in ("j1", "j2", "j3"):
             t = bytes(c[j])
             p.case("b64decfmt %s %d" % (hexs(t), len(t) + 4), dict(rc=0, n=len(src), out=src), "base64:decode_fmt:" + j)
